@@ -41,6 +41,20 @@ def _symbols(t, acc=None, seen=None):
     return acc
 
 
+_SYM_CACHE = {}
+
+
+def _symbols_cached(t):
+    k = t.get_id()
+    v = _SYM_CACHE.get(k)
+    if v is None:
+        v = _symbols(t)
+        if len(_SYM_CACHE) > 200000:
+            _SYM_CACHE.clear()
+        _SYM_CACHE[k] = v
+    return v
+
+
 def check_valid(pc, goal, timeout_ms=None, use_cvc5=True, seed=0, facts=None):
     """is  /\\ pc => goal  valid?  returns dict(status='unsat'|'sat'|'unknown', backend, seconds, model).
     Ladder: z3 on the full hypothesis set; on `unknown`, z3 on weakened hypothesis sets (dropping hypotheses is
@@ -49,26 +63,35 @@ def check_valid(pc, goal, timeout_ms=None, use_cvc5=True, seed=0, facts=None):
     timeout_ms = timeout_ms or DEFAULT_TIMEOUT_MS
     if isinstance(goal, bool):
         goal = z3.BoolVal(goal)
+    # first attempt on the full hypothesis set; the weakened sets are only built when that does not decide
+    r0, dt0, s0 = _z3_check(pc, goal, min(2500, timeout_ms), seed)
+    if r0 == z3.unsat:
+        return {'status': 'unsat', 'backend': 'z3', 'seconds': dt0, 'model': None}
+    if r0 == z3.sat:
+        return {'status': 'sat', 'backend': 'z3', 'seconds': dt0, 'model': s0.model()}
     variants = [('z3', pc)]
     if facts:
         sub = [c for c in pc if c.get_id() not in facts]
         if len(sub) != len(pc):
             variants.append(('z3/no-uf-facts', sub))
     gs = _symbols(goal)
-    sub = [c for c in pc if _symbols(c) <= gs]
+    sub = [c for c in pc if _symbols_cached(c) <= gs]
     if len(sub) != len(pc):
         variants.append(('z3/goal-symbols-only', sub))
     for k in (8, 24):
         # only the most recent hypotheses (e.g. the exit lemmas just proved): sound like every weakened variant
         if len(pc) > k:
             variants.append(('z3/tail%d' % k, pc[-k:]))
-    total = 0.0
-    reason = ''
+    total = dt0
+    reason = s0.reason_unknown()
     full_smt2 = None
+    first_round = True
     # short attempts on every variant first, then longer ones: cheap proofs stay cheap, and no verdict depends
     # on one long query surviving a loaded machine
     for budget in (min(2500, timeout_ms), max(2500, timeout_ms // 3)):
         for name, hyps in variants:
+            if first_round and name == 'z3':
+                continue          # already tried above with the short budget
             r, dt, s = _z3_check(hyps, goal, budget, seed)
             total += dt
             if r == z3.unsat:
@@ -79,6 +102,7 @@ def check_valid(pc, goal, timeout_ms=None, use_cvc5=True, seed=0, facts=None):
                 reason = s.reason_unknown()
                 if full_smt2 is None:
                     full_smt2 = s.to_smt2()
+        first_round = False
     if use_cvc5 and os.path.exists(CVC5):
         r3 = run_cvc5(full_smt2, timeout_ms)
         total += r3['seconds']
